@@ -13,7 +13,9 @@
    Constant-level.                                                                                                              *)
 EXTENDS Naturals, Sequences, FiniteSets, TLC
 Fmts == {"struct", "function", "variables"}
-Progs == [fmt : Fmts, bk : {"val", "ptr", "slice"}, sibling : BOOLEAN, ext : {"plain", "err", "iface"}, rootErr : BOOLEAN]
+\* how: the custom function is given with `extend` (used wherever int -> string occurs) or with `map V | E` on the declared conversion
+\*      of A (B2.V is then an int and B.V is copied)
+Progs == [fmt : Fmts, bk : {"val", "ptr", "slice"}, sibling : BOOLEAN, ext : {"plain", "err", "iface"}, rootErr : BOOLEAN, how : {"extend", "mapfunc"}]
 
 \* ---- what must happen
 \* generation fails when an error would be dropped, and when the converter value is asked for where none exists
@@ -27,7 +29,7 @@ Decls(p) ==
     [] p.fmt = "function" -> [struct |-> 0, method |-> 0, func |-> Declared(p) + Helpers(p), init |-> 0]
     [] OTHER -> [struct |-> 0, method |-> 0, func |-> Helpers(p), init |-> 1]
 \* the value the conversion computes for A{V: 5, B: B{V: 7}} (token of A2.V, token of the B2.V reached through B)
-Result(p) == <<"E(5)", "E(7)">>
+Result(p) == IF p.how = "extend" THEN <<"E(5)", "E(7)">> ELSE <<"E(5)", "7">>
 \* ---- structure of the emitter (operational reading): one fold over the methods in name order
 Emit(p) ==
   LET names == IF p.sibling THEN <<"Conv", "ConvB">> ELSE <<"Conv">>
